@@ -868,6 +868,8 @@ func runC20(c *Ctx) {
 	ruleDayCarry(c, p, "C20.day-carry")
 	ruleAppendTail(c, p, "C20.tail")
 	ruleLimbPairs(c, p, "C20.limbs")
+	ruleAddrStringDelegates(c, p, "C20.addr-string")
+	ruleInstantKept(c, p, "C20.instant")
 	ruleResetKeepsParameters(c, p, "C20.reset-keeps")
 	rulePerElementZone(c, p, "C20.per-element")
 
